@@ -234,9 +234,18 @@ def proof_side(props_files, allow_axioms=()):
 # running cases
 # ------------------------------------------------------------------------------------------------
 
+def _big_stack():
+    # the extracted model recurses once per byte of a line (non-tail-recursive list functions): a 140 kB line needs more than 8 MB
+    import resource
+    try:
+        resource.setrlimit(resource.RLIMIT_STACK, (resource.RLIM_INFINITY, resource.RLIM_INFINITY))
+    except (ValueError, OSError):
+        pass
+
+
 def _run_shard(binary, lines, timeout):
     data = ("\n".join(lines) + "\n").encode("ascii")
-    p = subprocess.run([binary], input=data, stdout=subprocess.PIPE, stderr=subprocess.PIPE, timeout=timeout)
+    p = subprocess.run([binary], input=data, stdout=subprocess.PIPE, stderr=subprocess.PIPE, timeout=timeout, preexec_fn=_big_stack)
     out = p.stdout.decode("ascii", "replace").split("\n")
     if out and out[-1] == "":
         out.pop()
@@ -246,7 +255,7 @@ def _run_shard(binary, lines, timeout):
         for ln in lines:
             try:
                 q = subprocess.run([binary], input=(ln + "\n").encode("ascii"), stdout=subprocess.PIPE,
-                                   stderr=subprocess.PIPE, timeout=60)
+                                   stderr=subprocess.PIPE, timeout=60, preexec_fn=_big_stack)
                 o = q.stdout.decode("ascii", "replace").split("\n")[0] if q.returncode == 0 else "CRASH rc=%d" % q.returncode
             except subprocess.TimeoutExpired:
                 o = "TIMEOUT"
